@@ -43,7 +43,8 @@ AllOpsSeq == <<"Withdraw", "WithdrawNF", "TakeFromWorktop", "TakeNF", "TakeAll",
                "ProofOfAmount", "ProofOfNF", "BucketProofOfAmount", "BucketProofOfNF", "BucketProofOfAll", "PopFromAuthZone",
                "PushToAuthZone", "CloneProof", "DropProof", "DropAllProofs", "DropNamedProofs", "DropAuthZoneProofs",
                "DropAuthZoneRegularProofs", "DropAuthZoneSignatureProofs", "AzProofOfAmount", "AzProofOfNF", "AzProofOfAll",
-               "AssertContains", "AssertAny", "AssertNF", "UpdateNFData">>
+               "AssertContains", "AssertAny", "AssertNF", "UpdateNFData",
+               "AssertResOnly", "AssertResInclude", "AssertNextCallOnly", "AssertNextCallInclude", "AssertBucket">>
 OpTable == SelectSeq(Weights \o AllOpsSeq, LAMBDA o : o \in Ops)
 SStep == \E j \in {RandomElement(1..Len(OpTable))}, f \in {RandomElement(1..FailOdds)} :
            LET op == OpTable[j]
